@@ -108,6 +108,8 @@ def draw_case(seed):
             return t.split('"')[1] if '"' in t else "q"
         return r.choice(["a", "<init>", "b"])
 
+    if r.random() < 0.2:
+        ops.append(["python-export"])          # DEX.create_python_export(): renames then also maintain the exported attributes
     for _ in range(length):
         c = r.random()
         if c < 0.45:
@@ -237,6 +239,8 @@ def execute(case):
             elif kind == "disasm":
                 if op[1] < len(items["m"]):
                     check_consts(op[1], step)
+            elif kind == "python-export":
+                d.create_python_export()
             elif kind == "observe-all":
                 for k in "cmf":
                     for i in range(len(items[k])):
